@@ -281,7 +281,8 @@ static bool domainOK(const Node& n, double a, double b)
     case ACOSH: return a >= 1.1 && a <= 50.0;
     case ABS: return mag(a, 0.01, BIGV);
     case POWEE: return a >= 0.05 && a <= 20.0 && std::fabs(b) <= 6.0;
-    case POWES: return (a >= 0.05 && a <= 20.0 && std::fabs(s) <= 4.0) || (a == 0.0 && !std::signbit(a) && s >= 1.0 && s <= 4.0);
+    case POWES: return (a >= 0.05 && a <= 20.0 && std::fabs(s) <= 4.0) || (a == 0.0 && !std::signbit(a) && s >= 1.0 && s <= 4.0)
+                       || (a <= -0.05 && a >= -20.0 && s == std::floor(s) && std::fabs(s) <= 4.0);
     case POWSE: return std::fabs(a) <= 8.0 && s >= 0.1 && s <= 10.0;
     case ATAN2EE: return mag(a, 0.01, BIGV) && mag(b, 0.05, BIGV);
     case ATAN2ES: return mag(a, 0.01, BIGV) && mag(s, 0.05, BIGV);
@@ -530,6 +531,7 @@ static const char* K_DIVS = "div-by-scalar-value-uses-reciprocal";
 static const char* K_POWSE = "pow-scalar-base-value-via-exp-log";
 static const char* K_DYNSDIV = "scalar-over-dynamic-evaluation-garbage";
 static const char* K_POW0 = "pow-base-zero-exponent-one-derivative-zero";
+static unsigned long long g_negpow = 0;     // pow(E, integer scalar) nodes with a negative base value
 static unsigned long long g_reused = 0;     // results move-assigned into a reused object of another size (dynamic variants)
 
 template <class TR>
@@ -859,6 +861,15 @@ struct Builder {
         case ABS: a = away0(a, 0.01, BIG); break;
         case POWEE: a = fit(a, 0.05, 20); b = fit(b, -6, 6); break;
         case POWES: {
+            if (pickInt(0, 6) == 0) {
+                // negative base with an integer-valued exponent: inside the domain of pow, value and
+                // derivative s*a^(s-1) are ordinary numbers
+                a = away0(a, 0.05, 20);
+                if (val[a] > 0) { Node m; m.op = NEG; m.a = a; a = push(m); }
+                n.s = double(pickInt(-3, 5));
+                ++g_negpow;
+                break;
+            }
             a = fit(a, 0.05, 20);
             const int k = pickInt(0, 8);
             static const double nice[] = {2.0, 0.5, 1.0, 3.0, -1.0, 0.0};
@@ -1051,6 +1062,7 @@ int main(int argc, char** argv)
         FILE* fo = std::fopen(fpsOut.c_str(), "wb");
         if (fo) { std::fwrite(C.shapes.data(), sizeof(uint64_t), C.shapes.size(), fo); std::fclose(fo); }
     }
+    C.labels["pow:negative-base-integer-exponent"] = long(g_negpow);
     C.labels["dynamic:result-move-assigned-into-reused-object-of-other-size"] = long(g_reused);
     std::ostringstream o;
     o << "{\"ok\":" << (ok ? "true" : "false") << ",\"cases\":" << C.cases << ",\"nontrivial\":" << C.nontrivial
